@@ -22,6 +22,7 @@ func init() {
 			"R3": "settlement mapping (as C01.R2)",
 			"R4": "hand-index-list writers and sources: full-circle seat-map scan under the dealt-in flag; leave remap: id → position in the NEW player list, hand index list rebuilt from it for every old entry in order, under status ∈ {opened, playing, settled} with the live status; no in-place filtering; entry 0 of the hand list: dealer seat when a dealt-in player holds it, else the nearest active seat counter-clockwise from the SB seat (held) or BB seat; seats skipped only when unset; list starts empty",
 			"R5": "translator definitions",
+			"R9": "a wager action is booked under the caller's entry only if that entry is the current player of the hand's own state: the hand's wager validator establishes index == g.gs.Status.CurrentPlayer on every success exit (the backend moves whoever is current; the table's published copy of the state lags behind)",
 			"R8": "players are taken off the table (and the hand index list re-mapped) only at the request of a leave: every call of the leave path passes its caller's own leave-id parameter, unchanged, and the callers are exported operations — a join that is refused, rolled back or retried never evicts anybody from the running hand",
 			"R7": "the dealt-in flags deciding membership of the hand list are copied from the seat manager for every player, on the clone, after this hand's rotation (as C05.R1)",
 			"R6": "joins do not shift: append to the player list; seat map copied and patched only at new seats",
@@ -34,6 +35,7 @@ func init() {
 
 func checkC02(c *Ctx) {
 	p := c.P
+	checkTurnTestOnHandState(c, "R9")
 	checkLeaveOnlyOnRequest(c, "R8")
 	lc := p.lifecycle()
 	if lc.openFn == nil || lc.startFn == nil {
